@@ -35,6 +35,9 @@ CHECKS = {
     "C20": ("abstract interpretation with linear forms and division axioms; dominating-guard and delegation rules",
             "from_time_of_week = from_total_nanoseconds(ns + week*7d) in the given scale; to_time_of_week satisfies week*7d+ns == count, 0 <= ns < 7d for non-negative counts; GNSS ns counters exact, Ok only under centuries == 0; day-of-year siblings share the anchor with paired +/-1.0.",
             "3.C20"),
+    "C16": ("finite-map extraction and decision tables by abstract interpretation; E6 float-exactness rule; table agreement",
+            "Weekday conversions/arithmetic as finite maps equal to arithmetic mod 7 with no reachable panic for any u8/i8; 49-cell difference table; names round-trip; weekday index derived from the integer count (floor(count/1d) mod 7, index 0 = Monday = 1900-01-01); next/previous move 1..7 days per the 49-cell table.",
+            "3.C16"),
 }
 
 NOT_YET = {}
